@@ -33,10 +33,16 @@ type Checker interface {
 	State(c Case) (msg string, nontrivial bool)
 	// Transition is called for every (state, op) pair before the successor is built.
 	Transition(c Case) (msg string)
+	// KeyExtra is hashed into the canonical state key: everything the oracle depends on beyond the
+	// implementation state (e.g. the reference model's state). Two histories are merged only when the
+	// implementation state AND this value coincide.
+	KeyExtra(c Case) string
 }
 
-func stateKey(d *Doc) [16]byte {
+func stateKey(d *Doc, extra string) [16]byte {
 	h := sha256.New()
+	h.Write([]byte(extra))
+	h.Write([]byte{0})
 	h.Write([]byte(d.Format()))
 	h.Write([]byte{0})
 	h.Write([]byte(strings.Join(d.TypedDump(), "\n")))
@@ -101,7 +107,7 @@ func Explore(r *fw.Run, work bool, seeds []string, ops []Op, depth int, chk Chec
 					continue
 				}
 				l.Execs++
-				if !visit(j.seed, stateKey(doc)) {
+				if !visit(j.seed, stateKey(doc, chk.KeyExtra(c))) {
 					l.Outcomes["duplicate-state"]++
 					continue
 				}
